@@ -2,7 +2,7 @@
 import os
 
 from .. import fake_ai, run, scenario
-from .common import (Case, HELD, VIOLATED, INCONCLUSIVE, TERM, bad_outcome, files_text, h, lua_script, rng)
+from .common import (Case, HELD, VIOLATED, INCONCLUSIVE, TERM, bad_outcome, files_text, h, lua_script, rng, endpoint_flake)
 from . import c11
 
 ID = "C13"
@@ -220,7 +220,7 @@ def run_job(job, ctx):
             return [Case(INCONCLUSIVE, key=key, summary="healthy-only control exited %s: %s" % (c.rc, c.err_text()[:200]), evals=2)]
     err = res.err_text()
     problem = None
-    if res.cls == "wall-timeout":
+    if res.cls == "wall-timeout" or endpoint_flake(res):
         return [Case(INCONCLUSIVE, key=key, summary="wall timeout", evals=2)]
     if res.rc == 0:
         problem = ("silent-pass", "exit 0: the malformed rule was treated as passing")
